@@ -71,6 +71,10 @@ def record_sets(g, L, maxlen):
     out = [("all", [r for r, st in allr])]
     if part and len(part) != len(allr):
         out.append(("partial", [r for r, st in part]))
+    # with realistic links the file with fewer aligned nodes comes first: a later file in the same process then has
+    # aligned nodes that an earlier one lacked (and the other way round for the complete link set)
+    if len(out) == 2 and len(g.links) < 3 * len(g.segs):
+        out.reverse()
     return out
 
 
@@ -92,7 +96,11 @@ class Prepared:
     def __init__(self, scratch, g, L, lm, stable, setname, recs, variant, tag):
         self.g, self.L, self.lm, self.stable, self.setname, self.recs, self.variant = g, L, lm, stable, setname, recs, variant
         self.gfa_path = os.path.join(scratch, "g.gfa")
-        fw.write_text(self.gfa_path, g.text())
+        # line order of the graph file is part of the input: the 'partial' files use L lines first and S lines in
+        # reverse (descending SO) order
+        from mc.props import c03
+
+        fw.write_text(self.gfa_path, c03.gfa_text(g, "rev" if setname == "partial" else "so"))
         self.text = "".join(r.line() + "\n" for r in recs)
         self.gaf_path = os.path.join(scratch, f"{tag}.gaf" + (".gz" if variant == BGZF3 else ""))
         write_variant(self.gaf_path, self.text, variant)
@@ -140,6 +148,7 @@ def run_view(P, nodes=None, regions=None, fmt=None):
 
 def judge_selection(res, P, prop, what, query, fmt, out, lines, want_idx):
     """common oracle for --node / --region: want_idx = indices (file order) of the records that must be printed"""
+    res.next_call()
     case = P.case(query, fmt)
     if out.kind == "nonterm":
         res.fail(f"{prop}/does-not-terminate", f"{what}: the query does not terminate", case)
@@ -227,6 +236,8 @@ def passthrough(res, P):
 
 def prepared_files(scratch, L, lm, maxlen, res, prop):
     g = vi.graph_for(L, lm)
+    if lm == "realistic":
+        maxlen = max(maxlen, 3)  # few walks exist with realistic links: three-step walks are affordable in quick mode too
     for setname, urecs in record_sets(g, L, maxlen):
         srecs = [rgfa.to_stable_model(g, r) for r in urecs]
         for stable, recs in ((False, urecs), (True, srecs)):
@@ -240,7 +251,7 @@ def prepared_files(scratch, L, lm, maxlen, res, prop):
 
 
 def run_shard(spec, tier, scratch):
-    res = fw.ShardResult()
+    res = fw.ShardResult().begin(spec, tier)
     b = bounds(tier)
     L = conv.layout_from(spec["layout"])
     for P in prepared_files(scratch, L, spec["linkmode"], b["max_steps"], res, "C04"):
